@@ -33,7 +33,8 @@ SRCS = ['util/json.c', 'util/b64encode.c', 'util/hexify.c', 'util/humansize.c',
 WRAPS = ('getaddrinfo',)
 NUM_INST = 12
 HOSTILE = [b'=', b'\0', b'\x80', b'\xff', b'-', b' ']
-CHUNK = 30000
+CHUNK = 6000
+BAIL = 25        # a shard stops after this many alarms (the run has failed anyway)
 
 
 def hx(b):
@@ -632,6 +633,13 @@ STATS = collections.Counter()
 
 
 def judge(c, ans):
+    c['answer'] = ans
+    if ans.startswith('HANG'):
+        return (c['kind'] + ':hang', ans)
+    if ans == 'SKIP':           # the driver gave up after several hangs
+        c['nt'] = False
+        STATS['skipped_after_hangs'] += 1
+        return None
     if ans == '' or ans.startswith('BAD'):
         return ('oracle:' + c['kind'], ans or 'empty answer')
     path = ans.split(' ', 1)[0]
@@ -660,6 +668,8 @@ def _shard(a):
     STATS.clear()
     res = {'evals': 0, 'sigs': set(), 'alarms': [], 'samples': []}
     buf = []
+    chunk = [50]
+    seen = set()
 
     def flush():
         if not buf:
@@ -674,11 +684,21 @@ def _shard(a):
         if k % n != i:
             continue
         cs = unit_cases(seed, u, records)
-        if len(res['samples']) < 2 and cs:
+        if u[0] not in seen and cs:
+            seen.add(u[0])
             res['samples'].append(cs[len(cs) // 2]['line'][:160])
         buf.extend(cs)
-        if len(buf) >= CHUNK:
+        # small first chunks: a parser that fails on everything is noticed
+        # after 50 inputs instead of after 200 crash reports
+        while len(buf) >= chunk[0] and len(res['alarms']) < BAIL and not STATS['skipped_after_hangs']:
+            rest = buf[chunk[0]:]
+            del buf[chunk[0]:]
             flush()
+            buf.extend(rest)
+            chunk[0] = min(CHUNK, chunk[0] * 10)
+        if len(res['alarms']) >= BAIL or STATS['skipped_after_hangs']:
+            del buf[:]
+            break
     flush()
     res['stats'] = dict(STATS)
     return res
@@ -690,11 +710,36 @@ def build(ctx):
                               libs=('-lm',))
 
 
-def make_records(exe, tmp):
-    outs, crashes = core.run_lines(exe, ['G ' + hx(a) for a in RECORD_ADDRS], args=(tmp,))
-    if crashes or any(o is None or o.startswith('R BAD') for o in outs):
-        raise core.Inconclusive('cannot produce serialised addresses: %r %r' % (outs, crashes))
-    return [bytes.fromhex(o[2:]) for o in outs]
+def fallback_records():
+    """The same four records built from the Linux ABI (used only when the
+    library cannot produce them, e.g. under a mutant that breaks resolving)."""
+    import socket
+    import struct
+
+    def rec(fam, name):
+        return struct.pack('<iiI', fam, 1, len(name)) + name
+
+    return [rec(2, struct.pack('<HH', 2, socket.htons(80)) + bytes([1, 2, 3, 4]) + bytes(8)),
+            rec(10, struct.pack('<HH', 10, socket.htons(8080)) + bytes(4) + bytes(15) + b'\x01' + bytes(4)),
+            rec(1, struct.pack('<H', 1) + b'/tmp/sock'.ljust(108, b'\0')),
+            rec(1, struct.pack('<H', 1) + (b'/' + b's' * 106).ljust(108, b'\0'))]
+
+
+def make_records(ctx, exe):
+    """Valid serialised addresses made by sock_resolve + sock_addr_serialize."""
+    cases = [mk('serialize', 'G ' + hx(a), False) for a in RECORD_ADDRS]
+    r = core.line_shard(exe, cases, judge=judge, timeout=120, args=(ctx.tmp,))
+    core.merge(ctx, [r])
+    recs = []
+    for c, fb in zip(cases, fallback_records()):
+        a = c.get('answer', '')
+        if a.startswith('rec '):
+            recs.append(bytes.fromhex(a[4:]))
+            ctx.count('records_from_sock_addr_serialize')
+        else:
+            recs.append(fb)
+            ctx.count('records_from_fallback')
+    return recs
 
 
 # ---------------------------------------------------------------------------
@@ -834,13 +879,16 @@ def run_valgrind(ctx, sample):
 # ---------------------------------------------------------------------------
 def run(ctx):
     exe = build(ctx)
-    records = make_records(exe, ctx.tmp)
+    records = make_records(ctx, exe)
     n = core.NCPU
     res = core.pmap(_shard, [(exe, ctx.tmp, ctx.seed, ctx.tier, i, n, records) for i in range(n)])
     core.merge(ctx, res)
-    for r in res[:8]:
-        for s in r['samples'][:1]:
-            ctx.add_sample(s)
+    byop = {}
+    for r in res:
+        for s in r['samples']:
+            byop.setdefault(s[0], s)
+    for op in sorted(byop):
+        ctx.add_sample(byop[op])
     if ctx.cov.get('getaddrinfo_calls', 0) and \
             ctx.cov.get('getaddrinfo_calls') == ctx.cov.get('getaddrinfo_refused_by_wrapper'):
         ctx.note_inconclusive('the getaddrinfo wrapper let nothing through')
